@@ -161,7 +161,9 @@ def enum_cases(tier):
                 if is_h2(kind):
                     for ev, n in sorted(h2_events(kind, ctx, shape).items()):
                         for k in range(n):
-                            acts = [{"rst": {"sid": "last"}}]
+                            # RST_STREAM with CANCEL (the default), REFUSED_STREAM, NO_ERROR and INTERNAL_ERROR: whatever the code says, the
+                            # property allows a re-send only for the two listed cases - a reset stream is reported to the caller
+                            acts = [{"rst": {"sid": "last"}}, {"rst": {"sid": "last", "code": 7}}, {"rst": {"sid": "last", "code": 0}}, {"rst": {"sid": "last", "code": 2}}]
                             for last in GOAWAYS:
                                 acts.append({"goaway": {"last": last}})
                                 acts.append({"goaway": {"last": last, "close": True}})
@@ -188,7 +190,7 @@ def random_cases(draw):
     if is_h2(kind) and draw(st.booleans()):
         script = []
         for _ in range(draw(st.integers(1, 2))):
-            act = draw(st.sampled_from([{"rst": {"sid": "last"}}, {"rst": {"sid": "first"}}] + [{"goaway": {"last": g}} for g in GOAWAYS] +
+            act = draw(st.sampled_from([{"rst": {"sid": "last"}}, {"rst": {"sid": "first"}}, {"rst": {"sid": "last", "code": 7}}, {"rst": {"sid": "first", "code": 7}}] + [{"goaway": {"last": g}} for g in GOAWAYS] +
                                        [{"goaway": {"last": g, "close": True}} for g in GOAWAYS] + [{"ping": True}, {"settings": {"3": 100}}]))
             script.append({"when": {"event": draw(st.sampled_from(["headers", "data", "request_complete", "response_sent", "settings_ack"])),
                                     "n": draw(st.integers(0, 3))}, "do": [act]})
